@@ -121,6 +121,7 @@ class Session:
         self.conn = Conn(cid, sched, peer=peer)
         self.shadow = Shadow(self.conn, hist.report)
         self.rng = random.Random(seed)
+        self.rng_sets = random.Random(seed * 7919 + 13)
         self.user = user
         self.labels: list[tuple[bytes, int, bytes, int]] = []
         self.results: list[Result] = []
@@ -351,7 +352,20 @@ class Session:
 
     def _pick_seqset(self) -> tuple[bytes, bool]:
         """A sequence set drawn from this session's own view; returns
-        (set, uid?)."""
+        (set, uid?).  One time in six the set is a comma list of two or
+        three such sets in the order drawn (not ascending, overlapping)."""
+        rng2 = self.rng_sets
+        if rng2.random() < 1 / 6:
+            parts = [self._pick_simple_seqset() for _ in range(
+                rng2.choice([2, 2, 3]))]
+            uid = parts[0][1]
+            same = [p for p, u in parts if u == uid and p != b'1:*']
+            if len(same) >= 2:
+                return b','.join(same), uid
+            return parts[0]
+        return self._pick_simple_seqset()
+
+    def _pick_simple_seqset(self) -> tuple[bytes, bool]:
         rng = self.rng
         sh = self.shadow
         use_uid = rng.random() < 0.45
